@@ -28,6 +28,12 @@ type Solver struct {
 	Unknown  int
 	Time     time.Duration
 	Log      io.Writer // optional: full SMT-LIB transcript
+
+	// Fresh mode: every check is sent as a self-contained problem after (reset),
+	// so that z3 can use its non-incremental bit-vector tactic.
+	Fresh   bool
+	history []string // declarations, definitions and assertions of the current path
+	SetLogic string
 }
 
 func NewSolver(bin string, timeoutMs int) (*Solver, error) {
@@ -85,6 +91,14 @@ func (s *Solver) Close() {
 	}
 }
 
+func (s *Solver) rec(line string) {
+	if s.Fresh {
+		s.history = append(s.history, line)
+		return
+	}
+	s.send(line)
+}
+
 func (s *Solver) send(line string) {
 	if s.Log != nil {
 		fmt.Fprintln(s.Log, line)
@@ -95,9 +109,13 @@ func (s *Solver) send(line string) {
 
 // Reset drops all assertions and definitions (new path).
 func (s *Solver) Reset() {
-	s.send("(reset)")
+	s.history = s.history[:0]
 	s.emitted = make(map[int]bool)
 	s.declared = make(map[string]bool)
+	if s.Fresh {
+		return
+	}
+	s.send("(reset)")
 	s.preamble()
 }
 
@@ -109,7 +127,7 @@ func (s *Solver) define(t *Term) {
 	if t.Op == OpVar {
 		if !s.declared[t.Name] {
 			s.declared[t.Name] = true
-			s.send(fmt.Sprintf("(declare-const %s %s)", t.Name, sortOf(t.W)))
+			s.rec(fmt.Sprintf("(declare-const %s %s)", t.Name, sortOf(t.W)))
 		}
 		return
 	}
@@ -133,7 +151,7 @@ func (s *Solver) define(t *Term) {
 			if c.Op == OpVar {
 				if !s.declared[c.Name] {
 					s.declared[c.Name] = true
-					s.send(fmt.Sprintf("(declare-const %s %s)", c.Name, sortOf(c.W)))
+					s.rec(fmt.Sprintf("(declare-const %s %s)", c.Name, sortOf(c.W)))
 				}
 				continue
 			}
@@ -144,7 +162,7 @@ func (s *Solver) define(t *Term) {
 		}
 		if !s.emitted[f.t.ID] {
 			s.emitted[f.t.ID] = true
-			s.send(fmt.Sprintf("(define-fun t%d () %s %s)", f.t.ID, sortOf(f.t.W), f.t.body()))
+			s.rec(fmt.Sprintf("(define-fun t%d () %s %s)", f.t.ID, sortOf(f.t.W), f.t.body()))
 		}
 		stack = stack[:len(stack)-1]
 	}
@@ -153,7 +171,7 @@ func (s *Solver) define(t *Term) {
 // Assert adds a permanent (for this path) constraint.
 func (s *Solver) Assert(t *Term) {
 	s.define(t)
-	s.send(fmt.Sprintf("(assert %s)", t.ref()))
+	s.rec(fmt.Sprintf("(assert %s)", t.ref()))
 }
 
 // Result of a check.
@@ -196,7 +214,24 @@ func (s *Solver) Check(extra []*Term, wantModel []*Term) (Result, map[string]uin
 	s.seq++
 	marker := "DONE-" + strconv.Itoa(s.seq)
 	start := time.Now()
-	s.send("(push 1)")
+	if s.Fresh {
+		s.send("(reset)")
+		s.preamble()
+		if s.SetLogic != "" {
+			s.send("(set-logic " + s.SetLogic + ")")
+		}
+		var sb strings.Builder
+		for _, h := range s.history {
+			sb.WriteString(h)
+			sb.WriteString("\n")
+		}
+		if s.Log != nil {
+			io.WriteString(s.Log, sb.String())
+		}
+		io.WriteString(s.in, sb.String())
+	} else {
+		s.send("(push 1)")
+	}
 	for _, e := range extra {
 		s.send(fmt.Sprintf("(assert %s)", e.ref()))
 	}
@@ -237,7 +272,9 @@ func (s *Solver) Check(extra []*Term, wantModel []*Term) (Result, map[string]uin
 			parseModel(strings.Join(ls, " "), model)
 		}
 	}
-	s.send("(pop 1)")
+	if !s.Fresh {
+		s.send("(pop 1)")
+	}
 	s.Time += time.Since(start)
 	switch res {
 	case Sat:
